@@ -428,6 +428,9 @@ def explore(f, start_block, start_idx, subject, value, classify_return, max_stat
                     rv_ = strip_casts(e["rhs"]["tree"])
                     if is_var(rv_) and isinstance(envd.get((rv_[1], None)), int):
                         c = envd[(rv_[1], None)]        # copy of a variable whose constant value is known on this path
+                    elif isinstance(rv_, list) and rv_ and rv_[0] == "member" and not rv_[3] and is_var(rv_[1]) \
+                            and isinstance(envd.get((strip_casts(rv_[1])[1], rv_[2])), int):
+                        c = envd[(strip_casts(rv_[1])[1], rv_[2])]      # copy of a field of a local object with a known constant
                 if c is None and fld is None and e.get("op") in ("++", "++post", "+=") and isinstance(envd.get((e["base_id"], None)), int):
                     inc = 1 if e.get("op") != "+=" else const_of(e["rhs"]["tree"])
                     if isinstance(inc, int) and inc > 0 and envd[(e["base_id"], None)] >= 0:
